@@ -28,6 +28,8 @@ type HarnessCfg struct {
 	TimeoutT int
 	MaxConc  int
 	Note     string
+	Pure     []string // functions summarised by path merging at their return
+	Use      []string // opt-in stubs (names of //verif:stub functions)
 }
 
 type Program struct {
@@ -37,6 +39,8 @@ type Program struct {
 	Sizes    types.Sizes
 	Replace  map[string]*ssa.Function
 	RunInit  map[string]bool
+	// Stubs are opt-in replacements: harness function name -> target.
+	Stubs    map[string]string
 	Harness  map[string]*HarnessCfg
 	Files    map[string]string // overlay path -> real path of harness sources
 	SrcHash  map[string]string
@@ -48,14 +52,14 @@ type Program struct {
 
 const repoPkgPath = "github.com/dgrr/http2"
 
-var directiveRe = regexp.MustCompile(`(?m)^//verif:(replace|harness)\s+(.*)\n(?://.*\n)*func\s+(?:\([^)]*\)\s*)?([A-Za-z0-9_]+)`)
+var directiveRe = regexp.MustCompile(`(?m)^//verif:(replace|stub|harness)\s+(.*)\n(?://.*\n)*func\s+(?:\([^)]*\)\s*)?([A-Za-z0-9_]+)`)
 
 // Load type-checks /repo with the harness sources overlaid and builds SSA.
 func Load(repoDir, harnessDir string) (*Program, error) {
 	overlay := map[string][]byte{}
 	files := map[string]string{}
 	type repl struct{ target, fn string }
-	var repls []repl
+	var repls, stubs []repl
 	harness := map[string]*HarnessCfg{}
 	ents, err := os.ReadDir(harnessDir)
 	if err != nil {
@@ -76,6 +80,8 @@ func Load(repoDir, harnessDir string) (*Program, error) {
 			switch m[1] {
 			case "replace":
 				repls = append(repls, repl{strings.TrimSpace(m[2]), m[3]})
+			case "stub":
+				stubs = append(stubs, repl{strings.TrimSpace(m[2]), m[3]})
 			case "harness":
 				hc := &HarnessCfg{Name: m[3]}
 				for _, kv := range strings.Fields(m[2]) {
@@ -97,6 +103,10 @@ func Load(repoDir, harnessDir string) (*Program, error) {
 						hc.TimeoutT, _ = strconv.Atoi(v)
 					case "maxconc":
 						hc.MaxConc, _ = strconv.Atoi(v)
+					case "pure":
+						hc.Pure = strings.Split(v, ",")
+					case "use":
+						hc.Use = strings.Split(v, ",")
 					}
 				}
 				harness[hc.Name] = hc
@@ -142,6 +152,13 @@ func Load(repoDir, harnessDir string) (*Program, error) {
 		}
 		p.Replace[r.target] = fn
 	}
+	p.Stubs = map[string]string{}
+	for _, r := range stubs {
+		if p.Pkg.Func(r.fn) == nil {
+			return nil, fmt.Errorf("verif:stub %s: harness function %s not found", r.target, r.fn)
+		}
+		p.Stubs[r.fn] = r.target
+	}
 	for _, ip := range []string{repoPkgPath, repoPkgPath + "/http2utils", "io", "bufio", "bytes"} {
 		p.RunInit[ip] = true
 	}
@@ -174,11 +191,21 @@ func (p *Program) allowBody(path string) bool {
 	return false
 }
 
+// HasProp reports whether the harness serves the property ("prop=C16,C05").
+func (hc *HarnessCfg) HasProp(p string) bool {
+	for _, x := range strings.Split(hc.Prop, ",") {
+		if x == p {
+			return true
+		}
+	}
+	return false
+}
+
 // HarnessNames lists the harness entry points, optionally for one property.
 func (p *Program) HarnessNames(prop string) []string {
 	var out []string
 	for name, hc := range p.Harness {
-		if prop == "" || hc.Prop == prop {
+		if prop == "" || hc.HasProp(prop) {
 			if p.Pkg.Func(name) != nil {
 				out = append(out, name)
 			}
